@@ -19,13 +19,13 @@ CHECKS = {
          "Fault enumeration over error patterns on a pool of valid frames (all golden frames, random frames of edge and sampled lengths): all single bits, all pairs on short frames, sampled pairs/odd weights, bursts of every length 2..=24. The all-pairs/all-bursts guarantee for every frame is mathematical; this samples it.",
          "damage restricted to reserved bits, payload and checksum as the statement says", "§3 C04"),
  "C05": ("proptest", "property-based testing (proptest): generated segment streams against a reference scanner model, with shrinking",
-         "Model-based exploration: proptest-generated multi-segment buffers compared with a reference scanner transcribed from the statement (consumed count, frame range, dead-byte invariant, iterator sequence and termination).",
+         "Model-based exploration: proptest-generated multi-segment buffers, all 65536 header patterns, streams beyond 64 KiB and noisy stretches (hundreds of rejected candidates, more than 64 KiB of rejected candidate bytes) compared with a reference scanner transcribed from the statement (consumed count, frame range, dead-byte invariant, iterator sequence through next and 13 adaptors, termination).",
          "reference scanner and CRC are the harness' own", "§3 C05"),
  "C06": ("proptest", "stateful property-based testing (proptest): generated streams x chunk schedules, caller-loop history compared with one-shot scan and reference model",
-         "Model-based exploration of histories: the documented caller loop is run over generated chunk schedules (one-byte chunks, cuts inside preamble/length/payload/CRC, empty chunks) and compared with one-shot scanning and the reference model.",
+         "Model-based exploration of histories: the documented caller loop is run over generated chunk schedules (one-byte chunks, cuts inside preamble/length/payload/CRC, empty chunks) and compared with one-shot scanning and the reference model; long and noisy streams fed in small, 4 KiB and 64 KiB pieces.",
          "caller behaviour modelled as in the statement: drop consumed bytes, append new data, rescan until no frame", "§3 C06"),
  "C13": ("enumerator", "enumeration of payload lengths x generated suffixes, with/without-suffix differential + reference message number",
-         "Generated-input exploration: all payload lengths 0..=1023 and all golden frames, each with generated suffixes; all observable attributes compared with and without suffix and the message number against the first 12 payload bits.",
+         "Generated-input exploration: all payload lengths 0..=1023 and all golden frames, each with generated suffixes; all observable attributes compared with and without suffix (also through scanner and iterator, from another slice position, with suffixes reaching multiples of 64 KiB) and the message number against the first 12 payload bits.",
          "frames built by the harness' own framing code", "§3 C13"),
  "C14": ("enumerator", "exhaustive enumeration of the 4096 message numbers x payload shapes against the repository's own table/feature lists",
          "Exhaustive over message numbers (4096) x payload shapes x {suffix, no suffix}; payload contents sampled. Supported set cross-checked between message table, msgNNNN features and all_msgs.",
@@ -37,7 +37,7 @@ CHECKS = {
          "Exhaustive for every field up to the width bound (quick 30 bits: 266 of 309 fields, thorough 32 bits: 300 of 309 fields); boundary windows, one-hot and large random samples for wider fields backed by the error-bound argument in DESIGN.md; hand-written bias codecs enumerated completely through frames.",
          "needs the hook; the list of sign-magnitude fields is pinned from the standard", "§3 C08"),
  "C11": ("sampler", "stratified generation of real inputs between adjacent grid points per float field, oracle = neighbour membership + half-step bound with derived float slack + monotonicity (hook); bias lists in arbitrary caller order through messages",
-         "Generated-input exploration over all float-typed fields: grid indexes at range ends, zero, powers of two and random; 16 interpolation points per interval including both sides of the half step. Tolerance derived from the rounding steps, not tuned.",
+         "Generated-input exploration over all float-typed fields: grid indexes at range ends, zero, powers of two and random; 16 interpolation points per interval including both sides of the half step; bias lists in caller order; position independence inside full-length list messages. Tolerance derived from the rounding steps, not tuned.",
          "needs the hook; grid = decoder image of consecutive patterns", "§3 C11"),
  "C02": ("generators+enumerator", "structure-aware frame generation (golden, the crate's generator, synthesiser incl. hostile MSM/bias/text/count structures, havoc mutation) with a totality/finiteness oracle in catch_unwind, both build profiles",
          "Generated-input exploration of the decoder for every supported message number and sampled unsupported ones, plus raw multi-frame streams; run in the optimised and the optimised+overflow-checks profile. A watchdog timeout is inconclusive (exit 2), never a violation.",
@@ -52,7 +52,7 @@ CHECKS = {
          "Model-based exploration of builder histories: pool of ~2600 messages (every type, every list filled to capacity, refused-early and refused-late messages), histories of up to 12 calls plus target (half of them with the target or a same-type neighbour also earlier in the history), every accepted message sandwiched around every refused one; the reused builder must match a fresh builder at every step.",
          "error kinds not compared", "§3 C12"),
  "C20": ("proptest+generators", "property-based testing (proptest recipes, shrinking) + decoded generated frames; oracle = serialize/deserialize identity through an own self-describing value model and serde_json::Value",
-         "Generated-input exploration over all supported types plus the wire-less variants; exact in-memory data models (no text format).",
+         "Generated-input exploration over all supported types plus the wire-less variants; exact in-memory data models (no text format); lists reversed / rotated / with repeated elements must survive unchanged.",
          "NaN-carrying messages are outside the property", "§3 C20"),
  "C10": ("enumerator+sampler", "exhaustive small scopes + random shapes of (S,G,C) with a bit-level standard-layout model as oracle, permutation metamorphic relation, single-defect error-class table; thorough tier adds a coverage-guided libFuzzer target (msm_masks) with the same oracle",
          "Generated-input exploration over all 49 MSM types: small scopes enumerated completely, random shapes up to 64 cells; the encoder's frame must equal a frame laid out by an independent model of the standard whatever the input order; each invalid class must give its own error.",
